@@ -20,38 +20,83 @@ fn main() {
     main_with("C35", run);
 }
 
-/// Stream whose `read`/`write` calls are capped by a schedule; 0 in the schedule = I/O error.
+/// What one `read`/`write` call of a scheduled stream does.
+#[derive(Clone, Copy, PartialEq, Debug)]
+enum Ev {
+    /// transfer at most this many bytes (≥ 1)
+    Cap(usize),
+    /// hard I/O error
+    Fault,
+    /// `ErrorKind::Interrupted`
+    Intr,
+}
+
+/// Stream whose `read`/`write` calls follow a schedule and whose `seek` calls (rewind and the
+/// default `stream_position` included) follow a seek schedule (`true` = that call fails).
 struct Sched<T> {
     inner: T,
-    sched: Vec<usize>,
+    sched: Vec<Ev>,
     i: usize,
+    seeks: Vec<bool>,
+    j: usize,
     /// after the explicit schedule: cap every transfer at `tail_cap` (0 = unlimited)
     tail_cap: usize,
     rng: Option<Rng>,
+    /// hard read/write faults and failing seeks delivered so far
+    hard_faults: u32,
+    /// `Interrupted` delivered so far
+    intrs: u32,
+    /// the very first read/write call was answered with `Interrupted`
+    first_was_intr: bool,
+    /// random tail: one call in `intr_den` is answered with `Interrupted` (0 = never)
+    intr_den: u64,
 }
 
 impl<T> Sched<T> {
-    fn new(inner: T, sched: Vec<usize>) -> Self {
-        Sched { inner, sched, i: 0, tail_cap: 0, rng: None }
+    fn new(inner: T, sched: Vec<Ev>) -> Self {
+        Sched { inner, sched, i: 0, seeks: vec![], j: 0, tail_cap: 0, rng: None, hard_faults: 0, intrs: 0, first_was_intr: false, intr_den: 0 }
+    }
+
+    fn with_seeks(mut self, seeks: Vec<bool>) -> Self {
+        self.seeks = seeks;
+        self
     }
 
     fn random(inner: T, seed: u64, cap: usize) -> Self {
-        Sched { inner, sched: vec![], i: 0, tail_cap: cap, rng: Some(Rng::new(seed)) }
+        let mut s = Sched::new(inner, vec![]);
+        s.tail_cap = cap;
+        s.rng = Some(Rng::new(seed));
+        s
     }
 
-    fn next_cap(&mut self) -> Option<usize> {
+    /// `Ok(cap)` or the injected error
+    fn next_cap(&mut self, what: &str) -> std::io::Result<usize> {
         if self.i < self.sched.len() {
-            let k = self.sched[self.i];
+            let e = self.sched[self.i];
             self.i += 1;
-            if k == 0 {
-                return None;
-            }
-            return Some(k);
+            return match e {
+                Ev::Cap(k) => Ok(k.max(1)),
+                Ev::Fault => {
+                    self.hard_faults += 1;
+                    Err(std::io::Error::other(format!("injected {what} fault")))
+                }
+                Ev::Intr => {
+                    self.intrs += 1;
+                    if self.i == 1 {
+                        self.first_was_intr = true;
+                    }
+                    Err(std::io::Error::new(std::io::ErrorKind::Interrupted, "injected interrupt"))
+                }
+            };
         }
         if let Some(r) = self.rng.as_mut() {
-            return Some(r.range(1, self.tail_cap as u64) as usize);
+            if self.intr_den > 0 && r.chance(1, self.intr_den) {
+                self.intrs += 1;
+                return Err(std::io::Error::new(std::io::ErrorKind::Interrupted, "injected interrupt"));
+            }
+            return Ok(r.range(1, self.tail_cap as u64) as usize);
         }
-        Some(usize::MAX)
+        Ok(usize::MAX)
     }
 }
 
@@ -60,13 +105,9 @@ impl<T: Read> Read for Sched<T> {
         if buf.is_empty() {
             return Ok(0);
         }
-        match self.next_cap() {
-            None => Err(std::io::Error::other("injected read fault")),
-            Some(k) => {
-                let n = buf.len().min(k);
-                self.inner.read(&mut buf[..n])
-            }
-        }
+        let k = self.next_cap("read")?;
+        let n = buf.len().min(k);
+        self.inner.read(&mut buf[..n])
     }
 }
 
@@ -75,13 +116,9 @@ impl<T: Write> Write for Sched<T> {
         if buf.is_empty() {
             return Ok(0);
         }
-        match self.next_cap() {
-            None => Err(std::io::Error::other("injected write fault")),
-            Some(k) => {
-                let n = buf.len().min(k);
-                self.inner.write(&buf[..n])
-            }
-        }
+        let k = self.next_cap("write")?;
+        let n = buf.len().min(k);
+        self.inner.write(&buf[..n])
     }
 
     fn flush(&mut self) -> std::io::Result<()> {
@@ -91,6 +128,14 @@ impl<T: Write> Write for Sched<T> {
 
 impl<T: Seek> Seek for Sched<T> {
     fn seek(&mut self, pos: SeekFrom) -> std::io::Result<u64> {
+        if self.j < self.seeks.len() {
+            let f = self.seeks[self.j];
+            self.j += 1;
+            if f {
+                self.hard_faults += 1;
+                return Err(std::io::Error::other("injected seek fault"));
+            }
+        }
         self.inner.seek(pos)
     }
 }
@@ -103,6 +148,10 @@ struct Fault<T> {
     sticky: bool,
     failed: bool,
     kinds: (bool, bool, bool), // fail on read / write / seek
+    /// alternatively: fail at the j-th operation of one kind ("read" / "write" / "seek")
+    kind_at: Option<(&'static str, u64)>,
+    /// operations seen per kind: read / write / seek
+    per_kind: (u64, u64, u64),
     hit: Option<&'static str>,
     /// innermost `c2pa::` function on the call stack when the fault was delivered
     site: Option<String>,
@@ -201,7 +250,13 @@ fn simplify_frame(name: &str) -> String {
 
 impl<T> Fault<T> {
     fn new(inner: T, fail_at: Option<u64>, sticky: bool) -> Self {
-        Fault { inner, ops: 0, fail_at, sticky, failed: false, kinds: (true, true, true), hit: None, site: None }
+        Fault { inner, ops: 0, fail_at, sticky, failed: false, kinds: (true, true, true), kind_at: None, per_kind: (0, 0, 0), hit: None, site: None }
+    }
+
+    fn at_kind(inner: T, kind: &'static str, j: u64, sticky: bool) -> Self {
+        let mut f = Fault::new(inner, None, sticky);
+        f.kind_at = Some((kind, j));
+        f
     }
 
     fn tick(&mut self, kind: &'static str) -> std::io::Result<()> {
@@ -212,7 +267,15 @@ impl<T> Fault<T> {
             "write" => self.kinds.1,
             _ => self.kinds.2,
         };
-        if (self.failed && self.sticky) || (self.fail_at == Some(k) && enabled) {
+        let slot = match kind {
+            "read" => &mut self.per_kind.0,
+            "write" => &mut self.per_kind.1,
+            _ => &mut self.per_kind.2,
+        };
+        let j = *slot;
+        *slot += 1;
+        let kind_hit = matches!(self.kind_at, Some((kk, jj)) if kk == kind && jj == j);
+        if (self.failed && self.sticky) || (self.fail_at == Some(k) && enabled) || kind_hit {
             self.failed = true;
             if self.hit.is_none() {
                 self.hit = Some(kind);
@@ -249,28 +312,123 @@ impl<T: Seek> Seek for Fault<T> {
     }
 }
 
-fn sched_str(s: &[usize]) -> String {
+fn sched_str(s: &[Ev]) -> String {
     if s.is_empty() {
         "-".to_string()
     } else {
-        s.iter().map(|k| k.to_string()).collect::<Vec<_>>().join(",")
+        s.iter()
+            .map(|e| match e {
+                Ev::Cap(k) => k.to_string(),
+                Ev::Fault => "0".to_string(),
+                Ev::Intr => "i".to_string(),
+            })
+            .collect::<Vec<_>>()
+            .join(",")
     }
 }
 
-fn gen_sched(r: &mut Rng) -> Vec<usize> {
-    let n = r.below(5) as usize;
+fn seeks_str(s: &[bool]) -> String {
+    if s.is_empty() {
+        "-".to_string()
+    } else {
+        s.iter().map(|f| if *f { "1" } else { "0" }).collect::<Vec<_>>().join(",")
+    }
+}
+
+fn gen_sched(r: &mut Rng) -> Vec<Ev> {
+    let n = r.below(6) as usize;
     (0..n)
-        .map(|_| match r.below(8) {
-            0 => 0,
-            1 => 1,
-            2 => 2,
-            3 => 7,
-            4 => 8,
-            5 => 15,
-            6 => 16,
-            _ => r.range(1, 40) as usize,
+        .map(|_| match r.below(10) {
+            0 => Ev::Fault,
+            1 => Ev::Cap(1),
+            2 => Ev::Cap(2),
+            3 => Ev::Cap(7),
+            4 => Ev::Cap(8),
+            5 => Ev::Cap(15),
+            6 => Ev::Cap(16),
+            7 => Ev::Intr,
+            _ => Ev::Cap(r.range(1, 40) as usize),
         })
         .collect()
+}
+
+/// Mostly no seek faults; otherwise up to five entries with one or two failing calls.
+fn gen_seeks(r: &mut Rng) -> Vec<bool> {
+    if !r.chance(1, 5) {
+        return vec![];
+    }
+    let n = r.range(1, 5) as usize;
+    let mut v = vec![false; n];
+    let k = r.below(n as u64) as usize;
+    v[k] = true;
+    if r.chance(1, 6) {
+        let k2 = r.below(n as u64) as usize;
+        v[k2] = true;
+    }
+    v
+}
+
+/// The Lean witnesses (`sniff_id3_fault_hidden`, `sniff_id3_seek_fault_hidden`,
+/// `format_hides_sniff_fault`) replayed on the implementation.
+const ID3_FLAC: &[u8] = &[0x49, 0x44, 0x33, 4, 0, 0, 0, 0, 0, 2, 0x78, 0x78, 0x66, 0x4c, 0x61, 0x43];
+
+fn sniff_case(run: &mut Run, pdf: bool, data: &[u8], sched: &[Ev], seeks: &[bool]) {
+    let mut s = Sched::new(Cursor::new(data.to_vec()), sched.to_vec()).with_seeks(seeks.to_vec());
+    let d = hook11::container_from_stream(&mut s);
+    let req = format!("C35 sniff pdf={} sched={} seeks={} data={}", pdf as u8, sched_str(sched), seeks_str(seeks), hex(data));
+    let imp = d.unwrap_or("-").to_string();
+    // oracle: detection must equal detection on a full-read stream unless a hard fault was
+    // delivered; with a fault: nothing, or still the full-read detection — never another container
+    let full = hook11::container_from_stream(&mut Cursor::new(data.to_vec()));
+    let faulted = s.hard_faults > 0;
+    if !faulted && (sched.iter().take(s.i).any(|e| matches!(e, Ev::Cap(k) if *k < 16)) || s.intrs > 0) {
+        run.nontrivial(req.clone());
+    }
+    run.count(if faulted { "sniff_fault" } else if s.intrs > 0 { "sniff_interrupted" } else { "sniff_chunked" });
+    if s.j > 0 && !seeks.is_empty() {
+        run.count("sniff_seek_schedule");
+    }
+    let idx = run.case(req.clone(), imp);
+    if !faulted && d != full {
+        run.fail(idx, "sniff-depends-on-chunking", format!("short reads {:?}: detected {:?}, full read {:?}", sched, d, full));
+    }
+    if faulted && d.is_some() && d != full {
+        if d == Some("mp3") && full == Some("flac") {
+            run.nontrivial(format!("id3-probe-fault {req}"));
+            run.fail(idx, "sniff-id3-probe-error-hidden", format!("container_from_stream: the ID3 probe's seek/read failed (sched {}, seeks {}) and a FLAC stream behind an ID3 tag was reported as mp3", sched_str(sched), seeks_str(seeks)));
+        } else {
+            run.fail(idx, "sniff-fault-foreign-container", format!("a fault (sched {}, seeks {}) made container_from_stream report {:?}; full read {:?}", sched_str(sched), seeks_str(seeks), d, full));
+        }
+    }
+}
+
+fn format_case(run: &mut Run, pdf: bool, hint: &str, data: &[u8], sched: &[Ev], seeks: &[bool]) {
+    let mut s = Sched::new(Cursor::new(data.to_vec()), sched.to_vec()).with_seeks(seeks.to_vec());
+    let got = hook11::format_from_stream(hint, &mut s);
+    let fam = hook11::container_from_format(hint);
+    let req = format!(
+        "C35 format pdf={} hint={} fam={} sched={} seeks={} data={}",
+        pdf as u8,
+        if hint.is_empty() { "-".to_string() } else { hex(hint.as_bytes()) },
+        fam.unwrap_or("-"),
+        sched_str(sched),
+        seeks_str(seeks),
+        hex(data)
+    );
+    let full = hook11::format_from_stream(hint, &mut Cursor::new(data.to_vec()));
+    let faulted = s.hard_faults > 0;
+    run.count(if faulted { "format_fault" } else { "format" });
+    let idx = run.case(req.clone(), hex(got.as_bytes()));
+    if !faulted && got != full {
+        run.fail(idx, "sniff-depends-on-chunking", format!("format_from_stream({hint:?}) under short reads {:?}: {got:?}, full read {full:?}", sched));
+    }
+    if faulted && got != full {
+        // the function returns a String: the I/O error cannot be reported and changes the answer
+        run.nontrivial(format!("format-fault {req}"));
+        let full_d = hook11::container_from_stream(&mut Cursor::new(data.to_vec()));
+        let class = if full_d == Some("flac") && got == "mp3" { "sniff-id3-probe-error-hidden" } else { "format-from-stream-hides-io-error" };
+        run.fail(idx, class, format!("format_from_stream({hint:?}): an injected fault (sched {}, seeks {}) changed the answer from {full:?} to {got:?} and no error is reported", sched_str(sched), seeks_str(seeks)));
+    }
 }
 
 fn model_cases(run: &mut Run, rng: &mut Rng) {
@@ -287,16 +445,24 @@ fn model_cases(run: &mut Run, rng: &mut Rng) {
         b"fLaC\x00\x00\x00\x22".to_vec(),
         b"ID3\x04\x00\x00\x00\x00\x00\x02xxfLaC".to_vec(),
         b"ID3\x04\x00\x00\x00\x00\x00\x02xxxxxx".to_vec(),
+        b"ID3\x04ftyp\x00\x02xxfLaC".to_vec(),
+        b"ID3\x04\x00\x00\x00\x00\x00\x09xxfL".to_vec(),
         vec![0xff, 0xfb, 0x90, 0x00],
         b"%PDF-1.7\n".to_vec(),
         b"<svg xmlns=''/>".to_vec(),
     ];
+    let hints = ["jpg", "image/png", "flac", "audio/flac", "mp3", "audio/mpeg", "tif", "dng", "application/octet-stream", "xyz", " JPG ", "mp4", ""];
+    // the Lean witnesses, replayed
+    sniff_case(run, pdf, ID3_FLAC, &[Ev::Cap(16), Ev::Fault], &[]);
+    sniff_case(run, pdf, ID3_FLAC, &[], &[false, false, true]);
+    format_case(run, pdf, "png", &[0xff, 0xd8, 0xff, 0xe0], &[Ev::Fault], &[]);
+    format_case(run, pdf, "audio/flac", ID3_FLAC, &[Ev::Cap(16), Ev::Fault], &[]);
     for _ in 0..n {
         let mut r = rng.fork();
         let sched = gen_sched(&mut r);
-        match r.below(3) {
-            0 => {
-                // sniff
+        match r.below(4) {
+            0 | 3 => {
+                // sniff / format_from_stream
                 let mut data = r.pick(&magics).clone();
                 if r.chance(1, 4) {
                     let k = r.below(data.len() as u64 + 1) as usize;
@@ -304,24 +470,16 @@ fn model_cases(run: &mut Run, rng: &mut Rng) {
                 }
                 let extra = r.below(12) as usize;
                 data.extend(r.bytes(extra));
-                let mut s = Sched::new(Cursor::new(data.clone()), sched.clone());
-                let d = hook11::container_from_stream(&mut s);
-                let req = format!("C35 sniff pdf={} sched={} data={}", pdf as u8, sched_str(&sched), hex(&data));
-                let imp = d.unwrap_or("-").to_string();
-                // oracle: detection must equal detection on a full-read stream, unless a fault was injected
-                let full = hook11::container_from_stream(&mut Cursor::new(data.clone()));
-                let faulted = sched.iter().take(s.i).any(|k| *k == 0);
-                if !faulted && sched.iter().take(s.i).any(|k| *k < 16) {
-                    run.nontrivial(req.clone());
-                }
-                run.count(if faulted { "sniff_fault" } else { "sniff_chunked" });
-                let idx = run.case(req, imp);
-                if !faulted && d != full {
-                    run.fail(idx, "sniff-depends-on-chunking", format!("short reads {:?}: detected {:?}, full read {:?}", sched, d, full));
+                let seeks = gen_seeks(&mut r);
+                if r.chance(1, 3) {
+                    let hint = *r.pick(&hints);
+                    format_case(run, pdf, hint, &data, &sched, &seeks);
+                } else {
+                    sniff_case(run, pdf, &data, &sched, &seeks);
                 }
             }
             1 => {
-                // box header
+                // box header, from a stream position
                 let mut data = match r.below(4) {
                     0 => {
                         let k = r.below(8) as usize;
@@ -345,52 +503,89 @@ fn model_cases(run: &mut Run, rng: &mut Rng) {
                 if r.chance(1, 10) {
                     data.clear();
                 }
-                let mut s = Sched::new(Cursor::new(data.clone()), sched.clone());
+                let pos = if r.chance(1, 2) { 0 } else { r.below(6) as usize };
+                let mut all = r.bytes(pos);
+                all.extend(&data);
+                let at = |c: Vec<u8>| {
+                    let mut c = Cursor::new(c);
+                    c.set_position(pos as u64);
+                    c
+                };
+                let mut s = Sched::new(at(all.clone()), sched.clone());
                 let res = hook::read_box_header(&mut s);
-                let req = format!("C35 header sched={} data={}", sched_str(&sched), hex(&data));
-                let imp = match &res {
+                let canon = |res: &Result<(String, u64), String>| match res {
                     Ok((name, size)) => format!("ok {} {}", name.replace(' ', ""), size),
                     Err(e) if e.contains("UnexpectedEof") || e.contains("UnexpectedEOF") => "eof".to_string(),
                     Err(_) => "err".to_string(),
                 };
-                run.count("header");
-                run.case(req, imp);
+                let req = format!("C35 header pos={} sched={} data={}", pos, sched_str(&sched), hex(&all));
+                let imp = canon(&res);
+                let full = canon(&hook::read_box_header(&mut at(all.clone())));
+                let faulted = s.hard_faults > 0;
+                run.count(if faulted { "header_fault" } else if s.first_was_intr { "header_interrupted_first" } else { "header" });
+                if !faulted && !s.first_was_intr && (s.intrs > 0 || sched.iter().take(s.i).any(|e| matches!(e, Ev::Cap(k) if *k < 8))) {
+                    run.nontrivial(req.clone());
+                }
+                let idx = run.case(req, imp.clone());
+                // oracle: chunk independence; after a fault: the error, or exactly the full-read header
+                if !faulted && !s.first_was_intr && imp != full {
+                    run.fail(idx, "read-depends-on-chunking", format!("read_header under short reads {}: {imp}, full read {full}", sched_str(&sched)));
+                }
+                if (faulted || s.first_was_intr) && imp != "err" && imp != full {
+                    run.fail(idx, "io-error-hidden", format!("read_header after a fault ({}) returned {imp}; full read {full}", sched_str(&sched)));
+                }
             }
             _ => {
                 // read_to_vec
-                let len = r.below(40) as usize;
+                let len = if r.chance(1, 12) { r.range(40, 300) as usize } else { r.below(40) as usize };
                 let data = r.bytes(len);
-                let pos = r.below(len as u64 + 3);
+                let pos = match r.below(5) {
+                    0 => len as u64,
+                    _ => r.below(len as u64 + 3),
+                };
                 let want = match r.below(6) {
                     0 => 0,
                     1 => len as u64,
                     2 => u64::MAX - r.below(3),
                     _ => r.below(len as u64 + 4),
                 };
-                let mut s = Sched::new(Cursor::new(data.clone()), sched.clone());
-                let _ = s.seek(SeekFrom::Start(pos));
+                let seeks = gen_seeks(&mut r);
+                let mut s = Sched::new(
+                    {
+                        let mut c = Cursor::new(data.clone());
+                        c.set_position(pos);
+                        c
+                    },
+                    sched.clone(),
+                )
+                .with_seeks(seeks.clone());
                 let res = hook::read_to_vec(&mut s, want);
-                let faulted = sched.iter().take(s.i).any(|k| *k == 0);
-                let req = format!("C35 tovec pos={} len={} sched={} faulted={} data={}", pos, want, sched_str(&sched), faulted as u8, hex(&data));
+                let faulted = s.hard_faults > 0;
+                let req = format!("C35 tovec pos={} len={} sched={} seeks={} data={}", pos, want, sched_str(&sched), seeks_str(&seeks), hex(&data));
                 let imp = match &res {
                     Ok(v) => format!("ok {}", hex(v)),
                     Err(_) => "err".to_string(),
                 };
                 run.count(if faulted { "tovec_fault" } else { "tovec" });
-                if !faulted && res.is_ok() && sched.iter().take(s.i).any(|k| (*k as u64) < want) {
+                if !faulted && res.is_ok() && (s.intrs > 0 || sched.iter().take(s.i).any(|e| matches!(e, Ev::Cap(k) if (*k as u64) < want))) {
                     run.nontrivial(req.clone());
                 }
                 let idx = run.case(req, imp);
                 // oracle: chunk independence and error propagation
-                let full = hook::read_to_vec(&mut {
-                    let mut c = Cursor::new(data.clone());
-                    let _ = c.seek(SeekFrom::Start(pos));
-                    c
-                }, want);
+                let full = hook::read_to_vec(
+                    &mut {
+                        let mut c = Cursor::new(data.clone());
+                        c.set_position(pos);
+                        c
+                    },
+                    want,
+                );
                 match (&res, &full, faulted) {
-                    (Ok(a), Ok(b), false) if a != b => run.fail(idx, "read-depends-on-chunking", format!("read_to_vec differs under short reads {sched:?}")),
-                    (Err(_), Ok(_), false) | (Ok(_), Err(_), false) => run.fail(idx, "read-depends-on-chunking", format!("read_to_vec ok/err differs under short reads {sched:?}")),
-                    (Ok(_), _, true) => run.fail(idx, "io-error-hidden", "read_to_vec returned Ok although a read failed".to_string()),
+                    (Ok(a), Ok(b), false) if a != b => run.fail(idx, "read-depends-on-chunking", format!("read_to_vec differs under short reads {}", sched_str(&sched))),
+                    (Err(_), Ok(_), false) | (Ok(_), Err(_), false) => run.fail(idx, "read-depends-on-chunking", format!("read_to_vec ok/err differs under short reads {}", sched_str(&sched))),
+                    // a fault delivered after the last needed byte cannot happen (std stops asking);
+                    // Ok after a delivered fault means the error was dropped
+                    (Ok(_), _, true) => run.fail(idx, "io-error-hidden", "read_to_vec returned Ok although a read or seek failed".to_string()),
                     _ => {}
                 }
             }
@@ -508,6 +703,31 @@ fn e2e(run: &mut Run, rng: &mut Rng) {
             }
         }
 
+        // (1b) short reads with `Interrupted` sprinkled in: callers are expected to retry; a caller
+        // that does not must return the error — never a different report
+        for cap in [7usize, 61] {
+            let seed = rng.next();
+            let rep = guarded(|| {
+                let mut s = Sched::random(Cursor::new(signed.clone()), seed, cap);
+                s.intr_den = 5;
+                read_report(fmt, s)
+            });
+            chunk_reads += 1;
+            let idx = run.reqs.len().saturating_sub(1);
+            match rep {
+                Ok(Ok(r)) if r == baseline => {
+                    run.nontrivial(format!("interrupted-read {name} cap={cap}"));
+                    run.count("interrupted_read_same_report");
+                }
+                Ok(Ok(_)) => run.fail(idx, "interrupted-read-changes-report", format!("{name}: short reads (cap {cap}, seed {seed}) with Interrupted injected give a different report")),
+                Ok(Err(e)) => {
+                    // an error is an acceptable outcome for the statement; recorded for the evidence
+                    run.count(&format!("interrupted_read_error_{e}"));
+                }
+                Err(p) => run.fail(idx, "panic", format!("{name}: panic with Interrupted injected (cap {cap}): {p}")),
+            }
+        }
+
         // (2) chunked sign: short reads on the source and short writes on the destination
         for cap in [1usize, 5, 64, 1000] {
             if cap < 64 && src.len() > 200_000 && !thorough {
@@ -547,9 +767,26 @@ fn e2e(run: &mut Run, rng: &mut Rng) {
         // exhaustive in k whenever affordable: the set of call sites that absorb a transient fault
         // must not depend on the seed
         let exhaustive = total < 800 || (thorough && total < 6000);
+        // plan: (None, k) = fail at op k counting all kinds together; (Some(kind), j) = fail at the
+        // j-th seek (every reader seeks far less often than it reads, so seeks get their own sweep)
+        let n_seeks = {
+            let mut f = Fault::new(Cursor::new(signed.clone()), None, false);
+            let _ = read_report(fmt, &mut f);
+            f.per_kind.2
+        };
+        let mut plan: Vec<(Option<&'static str>, u64)> = ks(total, rng, 48, if thorough { 400 } else { 40 }, exhaustive).into_iter().map(|k| (None, k)).collect();
+        if !exhaustive {
+            plan.extend(ks(n_seeks, rng, 16, if thorough { 200 } else { 24 }, thorough && n_seeks < 3000).into_iter().map(|j| (Some("seek"), j)));
+        }
         for sticky in [true, false] {
-            for k in ks(total, rng, 48, if thorough { 400 } else { 40 }, exhaustive) {
-                let mut f = Fault::new(Cursor::new(signed.clone()), Some(k), sticky);
+            for &(by_kind, k) in &plan {
+                let mut f = match by_kind {
+                    None => Fault::new(Cursor::new(signed.clone()), Some(k), sticky),
+                    Some(kind) => Fault::at_kind(Cursor::new(signed.clone()), kind, k, sticky),
+                };
+                if by_kind.is_some() {
+                    run.count("read_seek_fault_runs");
+                }
                 let rep = guarded(std::panic::AssertUnwindSafe(|| read_report(fmt, &mut f)));
                 fault_runs += 1;
                 let idx = run.reqs.len().saturating_sub(1);
@@ -582,31 +819,67 @@ fn e2e(run: &mut Run, rng: &mut Rng) {
             }
         }
 
-        // (4) fault at op k while signing (source faults and destination faults)
+        // (4) fault at op k while signing: source faults and destination faults (reads, writes and
+        // seeks), fail-stop and transient; by global op index and by the j-th op of each kind
         if src.len() <= 450_000 || thorough {
-            let (src_total, dst_total) = {
+            let (src_total, dst_total, src_kinds, dst_kinds) = {
                 let mut s = Fault::new(Cursor::new(src.clone()), None, false);
                 let mut d = Fault::new(Cursor::new(Vec::new()), None, false);
                 let _ = sign_with(fmt, &mut s, &mut d);
-                (s.ops, d.ops)
+                (s.ops, d.ops, s.per_kind, d.per_kind)
             };
-            for (side, total) in [("src", src_total), ("dst", dst_total)] {
+            for (side, total, kinds) in [("src", src_total, src_kinds), ("dst", dst_total, dst_kinds)] {
                 let exhaustive = thorough && total < 3000;
-                for k in ks(total, rng, 24, if thorough { 200 } else { 24 }, exhaustive) {
-                    let mut s = Fault::new(Cursor::new(src.clone()), if side == "src" { Some(k) } else { None }, true);
-                    let mut d = Fault::new(Cursor::new(Vec::new()), if side == "dst" { Some(k) } else { None }, true);
-                    let res = guarded(std::panic::AssertUnwindSafe(|| sign_with(fmt, &mut s, &mut d)));
-                    fault_runs += 1;
-                    let idx = run.reqs.len().saturating_sub(1);
-                    let hit = if side == "src" { s.hit } else { d.hit };
-                    match res {
-                        Err(p) => run.fail(idx, "panic", format!("{name}: panic when {side} op {k} fails during sign: {p}")),
-                        Ok(Err(_)) => {
-                            run.nontrivial(format!("faultsign {name} {side} {k}"));
+                let mut plan: Vec<(Option<&'static str>, u64)> = ks(total, rng, 24, if thorough { 200 } else { 24 }, exhaustive).into_iter().map(|k| (None, k)).collect();
+                for (kind, n_kind) in [("read", kinds.0), ("write", kinds.1), ("seek", kinds.2)] {
+                    if n_kind == 0 || (kind == "read" && side == "src") {
+                        // source reads dominate the source's global sweep already
+                        continue;
+                    }
+                    plan.extend(ks(n_kind, rng, 10, if thorough { 120 } else { 14 }, thorough && n_kind < 1500).into_iter().map(|j| (Some(kind), j)));
+                }
+                for sticky in [true, false] {
+                    for &(by_kind, k) in &plan {
+                        if !sticky && by_kind.is_none() && !thorough && k >= 24 {
+                            // quick: the transient sweep keeps the dense prefix and the per-kind samples
+                            continue;
                         }
-                        Ok(Ok(())) => {
-                            if let Some(kind) = hit {
-                                run.fail(idx, "io-error-hidden-sign", format!("{name}: {side} {kind} op {k} of {total} failed (sticky) but signing returned Ok"));
+                        let mk = |on: bool, data: Vec<u8>| -> Fault<Cursor<Vec<u8>>> {
+                            if !on {
+                                return Fault::new(Cursor::new(data), None, sticky);
+                            }
+                            match by_kind {
+                                None => Fault::new(Cursor::new(data), Some(k), sticky),
+                                Some(kind) => Fault::at_kind(Cursor::new(data), kind, k, sticky),
+                            }
+                        };
+                        let mut s = mk(side == "src", src.clone());
+                        let mut d = mk(side == "dst", Vec::new());
+                        let res = guarded(std::panic::AssertUnwindSafe(|| sign_with(fmt, &mut s, &mut d)));
+                        fault_runs += 1;
+                        run.count(&format!("sign_fault_{side}_{}", by_kind.unwrap_or("any")));
+                        let idx = run.reqs.len().saturating_sub(1);
+                        let (hit, site) = if side == "src" { (s.hit, s.site.clone()) } else { (d.hit, d.site.clone()) };
+                        let what = match by_kind {
+                            None => format!("op {k} of {total}"),
+                            Some(kind) => format!("{kind} #{k}"),
+                        };
+                        match res {
+                            Err(p) => run.fail(idx, "panic", format!("{name}: panic when {side} {what} fails during sign: {p}")),
+                            Ok(Err(_)) => {
+                                run.nontrivial(format!("faultsign {name} {side} {what} {sticky}"));
+                            }
+                            Ok(Ok(())) => {
+                                if let Some(kind) = hit {
+                                    let site = site.unwrap_or_else(|| "unknown".to_string());
+                                    // Fail-stop: signing must fail. Transient: an absorbed fault is
+                                    // tolerable only if the written asset is intact (reads back
+                                    // Valid); it is still classed by the call site that dropped it.
+                                    let out = d.inner.get_ref().clone();
+                                    let intact = matches!(read_report(fmt, Cursor::new(out)), Ok(r) if r.starts_with("Valid") || r.starts_with("Trusted"));
+                                    let class = if sticky || !intact { "io-error-hidden-sign".to_string() } else { format!("transient-io-absorbed-sign:{site}") };
+                                    run.fail(idx, &class, format!("{name}: {side} {kind} {what} failed ({}) in {site} but signing returned Ok (output {})", if sticky { "sticky" } else { "transient" }, if intact { "validates" } else { "does NOT validate" }));
+                                }
                             }
                         }
                     }
@@ -617,9 +890,60 @@ fn e2e(run: &mut Run, rng: &mut Rng) {
     run.notes.push(format!("end-to-end: chunked reads {chunk_reads}, fault-injected runs {fault_runs}"));
 }
 
-/// Heuristic used only to label the oracle class: the very first read of the stream is the sniff.
-fn is_sniff_op(_data: &[u8], k: u64) -> bool {
-    k <= 2
+/// Regression guard for fixes/C35-id3-tag-read-io-error.patch, cheap enough for the quick tier:
+/// a short MP3 (the first 60 kB of sample1.mp3: ID3v2 tag with a TSSE frame + audio frames) is
+/// signed with one transient fault at every source operation. If signing succeeds although the
+/// fault was delivered, the written tag must still carry the source's frames.
+fn id3_frames_kept(run: &mut Run) {
+    let fmt = "audio/mpeg";
+    let src = match std::fs::read(fixtures().join("sample1.mp3")) {
+        Ok(s) if s.len() > 60_000 && s.windows(4).take(200).any(|w| w == b"TSSE") => s[..60_000].to_vec(),
+        _ => {
+            run.notes.push("id3_frames_kept: sample1.mp3 missing or without a TSSE frame".to_string());
+            return;
+        }
+    };
+    let total = {
+        let mut s = Fault::new(Cursor::new(src.clone()), None, false);
+        let mut d = Cursor::new(Vec::new());
+        if let Err(e) = sign_with(fmt, &mut s, &mut d) {
+            run.notes.push(format!("id3_frames_kept: fault-free signing of the short mp3 failed: {e:?}"));
+            return;
+        }
+        s.ops
+    };
+    let mut absorbed = 0;
+    for k in 0..total.min(600) {
+        let mut s = Fault::new(Cursor::new(src.clone()), Some(k), false);
+        let mut d = Cursor::new(Vec::new());
+        let res = guarded(std::panic::AssertUnwindSafe(|| sign_with(fmt, &mut s, &mut d)));
+        run.count("id3_frames_kept_runs");
+        let idx = run.reqs.len().saturating_sub(1);
+        match res {
+            Err(p) => run.fail(idx, "panic", format!("short mp3: panic when src op {k} fails during sign: {p}")),
+            Ok(Err(_)) => {
+                run.nontrivial(format!("id3-frames-kept {k}"));
+            }
+            Ok(Ok(())) => {
+                if let Some(kind) = s.hit {
+                    let site = s.site.clone().unwrap_or_else(|| "unknown".to_string());
+                    let out = d.into_inner();
+                    let frames_kept = out.windows(4).take(4096).any(|w| w == b"TSSE");
+                    let intact = matches!(read_report(fmt, Cursor::new(out)), Ok(r) if r.starts_with("Valid") || r.starts_with("Trusted"));
+                    absorbed += 1;
+                    let class = if !frames_kept {
+                        "id3-frames-lost-on-io-error".to_string()
+                    } else if !intact {
+                        "io-error-hidden-sign".to_string()
+                    } else {
+                        format!("transient-io-absorbed-sign:{site}")
+                    };
+                    run.fail(idx, &class, format!("short mp3: src {kind} op {k} of {total} failed (transient) in {site} but signing returned Ok (frames {}, output {})", if frames_kept { "kept" } else { "LOST" }, if intact { "validates" } else { "does NOT validate" }));
+                }
+            }
+        }
+    }
+    run.notes.push(format!("id3_frames_kept: {} source ops swept, {absorbed} absorbed", total.min(600)));
 }
 
 /// Inventory of bare `.read(&mut` call sites (a `read` whose byte count is consumed without a
@@ -687,6 +1011,7 @@ pub fn run(run: &mut Run, rng: &mut Rng) {
     run.rule = "model level: magic-prefixed streams / box headers / read_to_vec requests under read schedules (per-call caps, 0 = fault); non-trivial = at least one consumed cap shorter than the request. implementation level: every freshly signed asset (one per writable container) read through randomly short reads (7 caps, right and unknown hint), signed through short reads+writes, and with an I/O fault injected at op k (dense first ops + sampled, exhaustive in thorough for short traces), sticky and transient; non-trivial = the faulted/short op was reached".to_string();
     model_cases(run, rng);
     single_read_inventory(run);
+    id3_frames_kept(run);
     e2e(run, rng);
 }
 
